@@ -368,7 +368,7 @@ func (r *nodeConfig) setStringSliceEncap(x []string) {
 	switch len(x) {
 	case 1:
 		r.setStringSliceEncapOne(x)
-	default:
+	case 2:
 		r.setStringSliceEncapTwo(x)
 	}
 }
